@@ -101,6 +101,7 @@ def run(repo, tier):
     r.rule("R19.3", "real_samples: every returning path whose value is built from min_value/max_value passes the include_subnormal bound adjustment first", floor=1)
     r.rule("R19.4", "real_samples: the bit-pattern offset of every sample is computed in exact integer arithmetic (no true division, float literal or float call)", floor=3)
     r.rule("R19.5", "real_samples: for every sample count 2..33, 100, 1000 and ten bit-pattern distances up to 2**63-1 the offsets start at 0, end at the distance, never decrease and are equally spaced up to one unit", floor=3)
+    r.rule("R19.6", "real_samples: the recursive negative part starts at the requested min_value, the positive part ends at the requested max_value, both with the caller's dtype and include_subnormal", floor=6)
     r.rule("R19.2", "product generators forward every shared option unchanged and axis k's size/bounds to the k-th inner call", floor=30)
 
     from sa.core import inline_helpers
@@ -245,6 +246,38 @@ def run(repo, tier):
                  sample=dict(rule="R19.5", models=n_models))
     if n_off < 3:
         raise AnalysisError(f"real_samples: only {n_off} offset comprehensions recognised (expected 3)")
+
+    # ------------------------------------------------------------------ R19.6 the recursive halves of a mixed-sign range
+    # real_samples splits [min_value, max_value] with min_value < 0 < max_value into a negative and a positive part by calling
+    # itself; the array returned is concatenate([negative part, (zero), positive part]).  The part listed first must start at
+    # the requested min_value, the part listed last must end at the requested max_value, and both get the caller's dtype and
+    # include_subnormal.
+    f0 = repo.func(REL, "real_samples")
+    rec = {}
+    for st in ast.walk(f0):
+        if isinstance(st, ast.Assign) and len(st.targets) == 1 and isinstance(st.targets[0], ast.Name) and isinstance(st.value, ast.Call) \
+                and (call_name(st.value) or "") == "real_samples":
+            rec[st.targets[0].id] = st.value
+    n_rec = 0
+    for n in ast.walk(f0):
+        if isinstance(n, ast.Call) and (call_name(n) or "").endswith("concatenate") and n.args and isinstance(n.args[0], ast.List):
+            names = [e.id for e in n.args[0].elts if isinstance(e, ast.Name) and e.id in rec]
+            if len(names) != 2:
+                continue
+            n_rec += 1
+            for part, bound, what in ((names[0], "min_value", "first (negative) part"), (names[-1], "max_value", "last (positive) part")):
+                kws = {k.arg: k.value for k in rec[part].keywords}
+                v = kws.get(bound)
+                ok = isinstance(v, ast.Name) and v.id == bound
+                r.ob("R19.6", f"{REL}::real_samples {what} of a mixed-sign range keeps the requested {bound}", ok,
+                     f"the {what} is built with {bound}=`{norm_src(v) if v is not None else None}`: the samples then do not start/end at the requested bound "
+                     "(they leave the range or do not cover it) unless the bounds happen to be symmetric", loc(REL, rec[part]))
+                for opt in ("dtype", "include_subnormal"):
+                    v2 = kws.get(opt)
+                    r.ob("R19.6", f"{REL}::real_samples {what} forwards {opt}", isinstance(v2, ast.Name) and v2.id == opt,
+                         f"the {what} is built with {opt}=`{norm_src(v2) if v2 is not None else None}`", loc(REL, rec[part]))
+    if n_rec == 0:
+        raise AnalysisError("real_samples: the concatenation of the recursive negative and positive parts was not found")
 
     # ------------------------------------------------------------------ R19.3 bounds are adjusted before they are used
     check_bounds_adjusted_before_use(r, repo, f)
